@@ -99,6 +99,8 @@ class Stat(Op):
 
     def setup(self, ctx, st, w, k):
         self.path = '/dev/f%d' % k
+        if self.kw.get('path_len'):
+            self.path = '/' + 'p' * (self.kw['path_len'] - 1)
         t = (ctx.int('mode', 0, U32), ctx.int('size', 0, U32), ctx.int('mtime', 0, U32))
         st.fs.stat[self.path.encode()] = t
         return t
@@ -116,6 +118,8 @@ class List(Op):
 
     def setup(self, ctx, st, w, k):
         self.path = '/dev/d%d' % k
+        if self.kw.get('path_len'):
+            self.path = '/' + 'q' * (self.kw['path_len'] - 1)
         ents = []
         for n in self.kw.get('names', (1, 2)):
             name = ctx.bytes('name', n) if n <= 8 else sym_content(ctx, 'name', n, [0, 1, n // 2, n - 1])
